@@ -301,6 +301,9 @@ def trace_stats(ctx, traces):
                     if k in last_g and r["garbage"] < last_g[k]:
                         ctx.count("garbage_purged", last_g[k] - r["garbage"])
                     last_g[k] = r["garbage"]
+                if ev == "Sync" and e.get("fired"):
+                    ctx.count("faults_fired")
+                    ctx.count("fault_" + e.get("fault", "?"))
                 if ev == "Edit":
                     ctx.count("edits_" + e.get("outcome", "?"))
                     g = (e.get("args") or {}).get("guard")
